@@ -1,4 +1,5 @@
 import CloakModel.Props.E2EWire
 import CloakModel.Props.C01Deadline
+import CloakModel.Props.C15
 
 /-! Umbrella module of property C01: everything its check builds and audits (`lean_module` in `checks_d/C01.py`). -/
